@@ -140,12 +140,16 @@ Definition t_place (fuel : nat) (fp : list Z) (c : cell) : list Z * placed :=
   end.
 End Tetris.
 
+(* the body of the loop over the cells (named so that it can be reasoned about) *)
+Definition t_step (rows : list row) (rh : Z) (fuel : nat) (st : list Z * list placed) (c : cell) : list Z * list placed :=
+  let '(fp, acc) := st in let '(fp', p) := t_place rows rh fuel fp c in (fp', p :: acc).
+
 Definition tetris_run (rows0 : list row) (cells : list cell) : list placed :=
   let rows := sort_rows rows0 in
   let rh := match rows with r :: _ => maxY (rr r) - minY (rr r) | [] => 0 end in
   let fuel := length rows in
   let fp0 := map (fun r => minX (rr r)) rows in
-  rev (snd (fold_left (fun '(fp, acc) c => let '(fp', p) := t_place rows rh fuel fp c in (fp', p :: acc)) cells (fp0, []))).
+  rev (snd (fold_left (t_step rows rh fuel) cells (fp0, []))).
 
 (* ---------- Abacus ---------- *)
 
@@ -188,25 +192,35 @@ Definition a_place (legs : list rl) (rowcells : list (list nat)) (ci : nat) (c :
   end.
 End Abacus.
 
+(* the body of the loop over the cells *)
+Definition a_step (rows : list row) (st : list rl * list (list nat) * nat) (c : cell) : list rl * list (list nat) * nat :=
+  let '(legs, rcs, ci) := st in
+  let '(legs', rcs', _) := a_place rows legs rcs ci c in (legs', rcs', S ci).
+
+(* the state after the loop: per-row legalizers, per-row cell indices in insertion order *)
+Definition abacus_state (rows : list row) (cells : list cell) : list rl * list (list nat) * nat :=
+  fold_left (a_step rows) cells
+    (map (fun r => rl_init (minX (rr r)) (maxX (rr r))) rows, map (fun _ => @nil nat) rows, O).
+
+(* read-back of one (cell index, x) pair of row i *)
+Definition a_write (rows : list row) (cells : list cell) (i : Z) (r : row) (res : list placed) (p : nat * Z) : list placed :=
+  let '(ci, x) := p in
+  match nth_error cells ci with
+  | Some c => match get_orientation rows c i with Some o => upd res ci (Some (x, minY (rr r), o)) | None => res end
+  | None => res end.
+
+Fixpoint a_fill (rows : list row) (cells : list cell) (i : Z) (rws : list row) (lgs : list rl)
+         (rcl : list (list nat)) (res : list placed) : list placed :=
+  match rws, lgs, rcl with
+  | r :: rws', lg :: lgs', rc :: rcl' =>
+      a_fill rows cells (i + 1) rws' lgs' rcl' (fold_left (a_write rows cells i r) (combine rc (placement lg)) res)
+  | _, _, _ => res
+  end.
+
 Definition abacus_run (rows0 : list row) (cells : list cell) : list placed :=
   let rows := sort_rows rows0 in
-  let legs0 := map (fun r => rl_init (minX (rr r)) (maxX (rr r))) rows in
-  let rc0 := map (fun _ => @nil nat) rows in
-  let '(legs, rcs, _) := fold_left (fun '(legs, rcs, ci) c =>
-        let '(legs', rcs', _) := a_place rows legs rcs ci c in (legs', rcs', S ci)) cells (legs0, rc0, O) in
-  let res0 := map (fun _ => @None (Z * Z * orient)) cells in
-  let fill := fix fill (i : Z) (rws : list row) (lgs : list rl) (rcl : list (list nat)) (res : list placed) : list placed :=
-    match rws, lgs, rcl with
-    | r :: rws', lg :: lgs', rc :: rcl' =>
-      let pl := placement lg in
-      let res' := fold_left (fun res '(ci, x) =>
-         match nth_error cells ci with
-         | Some c => match get_orientation rows c i with Some o => upd res ci (Some (x, minY (rr r), o)) | None => res end
-         | None => res end) (combine rc pl) res in
-      fill (i + 1) rws' lgs' rcl' res'
-    | _, _, _ => res
-    end in
-  fill 0 rows legs rcs res0.
+  let '(legs, rcs, _) := abacus_state rows cells in
+  a_fill rows cells 0 rows legs rcs (map (fun _ => @None (Z * Z * orient)) cells).
 
 (* ---------- Legalizer::run ---------- *)
 Inductive outcome := Ok (pl : list (Z * Z * orient)) | NoRow | NotAllPlaced.
